@@ -209,7 +209,7 @@ impl Check for C11 {
         if tier == "quick" { 120_000 } else { 2_500_000 }
     }
     fn gen_case(&self, rng: &mut Rng, _idx: u64, _tier: &str) -> Value {
-        let ring = *rng.pick(&["Z", "Z", "Z", "Q", "F2", "F3", "ZH"]);
+        let ring = *rng.pick(&["Z", "Z", "ZB", "Q", "F2", "F3", "ZH"]);
         let a = matgen::gen_matrix(rng, ring);
         let ptype = if rng.chance(1, 2) { "Rows" } else { "Cols" };
         let (cond, w) = match rng.below(4) {
